@@ -229,10 +229,10 @@ Proof.
   - cbn [length] in Hk. destruct k as [|[|k]]; [lia|lia|].
     cbn [simple_path forallb] in Hsp. apply andb_prop in Hsp as [Hc Hrest].
     assert (Hcont : forall ns, proceed k rest ns =
-              match rest with [] => collect leaf_node ns | _ => collect (ref_nodes attrs labels rest) ns end).
+              (match rest with [] => collect leaf_node | _ => collect (ref_nodes attrs labels rest) end) ns).
     { intros ns. unfold proceed. destruct rest as [|c2 rest2]; [symmetry; apply collect_leaf_node|].
       rewrite concat_res_collect. apply collect_ext. intros x _. apply IH; [exact Hrest|lia]. }
-    unfold ref_nodes at 1. cbn [ref_gen]. rewrite fsub_eq.
+    unfold ref_nodes at 1. cbn [ref_gen]. unfold ref_step. rewrite fsub_eq.
     unfold simple_comp in Hc. destruct (c_sep c =? SEP_CHILD)%N eqn:Ech.
     + pose proof (sep_child_not_descend c Ech) as Hd. rewrite (fkind_child_eq k n c rest Hd).
       destruct n as [i|id|id ms|dl id nmem f ms|ms]; cbn [has_members negb]; try reflexivity.
@@ -329,9 +329,10 @@ Lemma ref_nodes_depth : forall cs n rs, ref_nodes attrs labels cs n = Ok rs ->
 Proof.
   induction cs as [|c rest IH]; intros n rs E; [discriminate|].
   unfold ref_nodes in E. cbn [ref_gen] in E. fold (ref_nodes attrs labels) in E.
-  set (cont := fun ns : list qn => match rest with
-                                   | [] => collect leaf_node ns
-                                   | _ :: _ => collect (ref_nodes attrs labels rest) ns end) in E.
+  set (cont := match rest with
+               | [] => collect leaf_node
+               | _ :: _ => collect (ref_nodes attrs labels rest) end) in E.
+  unfold ref_step in E.
   assert (Hcont : forall ns r, cont ns = Ok r -> Forall (fun r => rdepth r <= 2 * length rest + 1)%nat r).
   { intros ns r Er. unfold cont in Er. destruct rest as [|c2 rest2].
     - rewrite collect_leaf_node in Er. injection Er as <-. apply Forall_forall. intros x Hx.
